@@ -4,6 +4,7 @@ package main
 // Malformed-but-structured stream per front-end plus a raw byte-mutation stream.
 
 import (
+	"encoding/json"
 	"fmt"
 	"math"
 	"os"
@@ -215,6 +216,31 @@ func runC15(h *H) {
 		outcomes["bytes "+route+" "+st]++
 		h.emit(h.line("C15", "bytes").Str("oapi-" + route).Bar().Str(st))
 	}
+	// type stream: well-formed JSON in which ONE member has a value of the wrong JSON type (a size that is a float or
+	// a string, entries that are an object, an id that is a number, a scheme that is an array, null anywhere):
+	// refused as a client error (or harmless), never an internal error
+	for k := 0; k < n; k++ {
+		r := g.validOReq(true)
+		if g.intn(4) == 0 {
+			r.lt = mRef{kind: "stored", id: "fuzz"}
+		}
+		route := g.pick("compute", "stats", "put")
+		var res httpRes
+		switch route {
+		case "compute":
+			res = env.do("POST", "/compute", mutateTypes(g, r.json()), wd)
+		case "stats":
+			res = env.do("POST", "/compute-with-stats", mutateTypes(g, r.json()), wd)
+		default:
+			res = env.do("PUT", "/local-trust/fuzz", mutateTypes(g, mustJSON(r.lt.json())), wd)
+		}
+		st := fmt.Sprint(res.status)
+		if res.outcome != "" {
+			st = res.outcome
+		}
+		outcomes["types "+route+" "+st]++
+		h.emit(h.line("C15", "bytes").Str("oapi-types-" + route).Bar().Str(st))
+	}
 	h.notes["outcomes"] = outcomes
 	// gRPC services: malformed index strings, absent params, out-of-range parameters
 	ng := h.budget(150, 3000)
@@ -287,4 +313,60 @@ func runOapiCsv(h *H) {
 		h.emit(h.line("C15", "oapicsv").records(parsed).Bool(ok).Bar().Str(st))
 		os.Remove(path)
 	}
+}
+
+// mutateTypes replaces the value of one randomly chosen member (at any depth) of a JSON document by a value of
+// another JSON type.
+func mutateTypes(g *G, body []byte) []byte {
+	var doc any
+	if err := json.Unmarshal(body, &doc); err != nil {
+		return body
+	}
+	type slot struct {
+		set func(any)
+		val any
+	}
+	var slots []slot
+	var walk func(v any)
+	walk = func(v any) {
+		switch x := v.(type) {
+		case map[string]any:
+			for k, c := range x {
+				k, c := k, c
+				slots = append(slots, slot{func(n any) { x[k] = n }, c})
+				walk(c)
+			}
+		case []any:
+			for i, c := range x {
+				i, c := i, c
+				slots = append(slots, slot{func(n any) { x[i] = n }, c})
+				walk(c)
+			}
+		}
+	}
+	walk(doc)
+	if len(slots) == 0 {
+		return body
+	}
+	sl := slots[g.intn(len(slots))]
+	var repl []any
+	switch sl.val.(type) {
+	case float64:
+		repl = []any{"7", 2.5, []any{}, map[string]any{}, true, nil, []any{1.0}}
+	case string:
+		repl = []any{7.0, []any{"inline"}, map[string]any{"scheme": "inline"}, false, nil}
+	case []any:
+		repl = []any{map[string]any{}, "entries", 3.0, nil, []any{[]any{0.0, 1.0, 1.0}}, []any{nil}}
+	case map[string]any:
+		repl = []any{[]any{}, "x", 1.0, nil, true}
+	default:
+		repl = []any{1.0, "x", []any{}, map[string]any{}}
+	}
+	sl.set(repl[g.intn(len(repl))])
+	g.count(fmt.Sprintf("type-mutation:%T", sl.val))
+	out, err := json.Marshal(doc)
+	if err != nil {
+		return body
+	}
+	return out
 }
